@@ -34,8 +34,8 @@ pub const SUBS: &[SubDef] = &[
     SubDef { prop: "C12", name: "names", oracle: names },
 ];
 
-struct Tables {
-    file: Vec<Row>,
+pub struct Tables {
+    pub file: Vec<Row>,
     golden: Vec<Row>,
 }
 
@@ -56,7 +56,7 @@ fn tables() -> &'static Result<Tables, String> {
     })
 }
 
-fn tabs() -> Result<&'static Tables, Fail> {
+pub fn tabs() -> Result<&'static Tables, Fail> {
     match tables() {
         Ok(t) => Ok(t),
         Err(e) => fail("C12:registry-file-unreadable", format!("cannot interpret the registry text file: {}", e)),
